@@ -24,7 +24,7 @@ from checks.common import Check, Claim, close, close_array, scenario, sopht_modu
 from checks.flowstep import run_step  # noqa: E402
 from ref import flow_ref as FR  # noqa: E402
 
-TOL = {"float64": 1e-11, "float32": 5e-4}
+TOL = {"float64": 1e-11, "float32": 5e-5}  # absolute, cut variables in [-1,1]; measured exact-table worst cases 7e-15 / 3e-7 (evidence)
 
 
 def _sum(a):
@@ -98,7 +98,7 @@ def flow_step(ctx, cfg):
             n = int(np.prod(cfg["shape"]))
             for i in range(3):
                 res = neumann_neg_laplacian(psi_impl[i], float(dx))
-                close_array(ctx, f"C:neumann_residual[{i}]", res, r["w1"][i] - _sum(r["w1"][i]) / n, tol * 1e3)
+                close_array(ctx, f"C:neumann_residual[{i}]", res, r["w1"][i] - _sum(r["w1"][i]) / n, tol * 20)
                 close(ctx, f"C:zero_mean[{i}]", _sum(psi_impl[i]) / n, 0.0, tol)
         elif dim == 2:
             close_array(ctx, "C:stream_function_is_greens_convolution", psi_impl, FR.stage_poisson_greens(r["w1"], dx, 2), tol)
